@@ -19,6 +19,10 @@ Proof.
   destruct l as [|x xs]; [congruence|]. intros _ Hf. cbn [flat_mapM]. rewrite (Hf x (or_introl eq_refl)). reflexivity.
 Qed.
 
+Lemma map_flat_map_single {A B C} (g : B -> C) (f : A -> B) l :
+  map g (flat_map (fun j => [f j]) l) = map (fun j => g (f j)) l.
+Proof. induction l as [|x xs IH]; cbn [flat_map map app]; [reflexivity | rewrite IH; reflexivity]. Qed.
+
 (* ---------- zrange ---------- *)
 Lemma in_zrange_nat lo n x : In x (zrange_nat lo n) <-> lo <= x < lo + Z.of_nat n.
 Proof.
